@@ -81,13 +81,28 @@ func C02(tier Tier) int {
 // C04
 
 func c04Profiles(tier Tier) []*explore.Profile {
-	o := menuOpts{thorough: tier.Thorough(), shards: 2}
+	o := menuOpts{thorough: tier.Thorough(), shards: 2, extra: [][]byte{uni.Z1}, sysFlavours: true}
 	depth := 3
 	if tier.Thorough() {
 		depth = 4
 	}
+	// the seeds additionally give tokens to z1, an ordinary account whose address ends in 0xff
+	seeds := func(env *world.Env) []explore.SeedState {
+		var out []explore.SeedState
+		for _, n := range []string{"mixed", "frozen"} {
+			b := uni.SeedBuilder(env, "mixed")
+			b.Must(uni.ESDTTransfer(uni.A0, uni.Z1, uni.F, 2)).DeliverAll()
+			b.Must(uni.NFTTransfer(uni.A0, uni.Z1, uni.S, 1, 1)).DeliverAll()
+			if n == "frozen" {
+				b.Must(uni.SysCall(uni.B0, vmcommon.BuiltInFunctionESDTFreeze, uni.F))
+				b.Must(uni.PauseCall(1, vmcommon.BuiltInFunctionESDTPause, uni.F))
+			}
+			out = append(out, explore.SeedState{Name: n + "+z1", W: b.W, Legs: b.Legs, Failed: b.Failed})
+		}
+		return out
+	}
 	p := &explore.Profile{
-		Name: "freeze", EnvCfg: ledgerEnv(2), Seeds: seedsOf("mixed", "frozen"), Depth: depth, Deadline: tierDeadline(tier),
+		Name: "freeze", EnvCfg: ledgerEnv(2), Seeds: seeds, Depth: depth, Deadline: tierDeadline(tier),
 		Menu: func(w *world.World) []world.Action {
 			acts := freezeMenu(w, o, true)
 			acts = append(acts, transferMenuLight(w, o)...)
@@ -121,7 +136,7 @@ func transferMenuLight(w *world.World, o menuOpts) []world.Action {
 		if w.Get(from) == nil {
 			continue
 		}
-		for _, to := range [][]byte{uni.A0, uni.B0, uni.C1, uni.S0} {
+		for _, to := range append([][]byte{uni.A0, uni.B0, uni.C1, uni.S0}, o.extra...) {
 			if string(to) == string(from) {
 				continue
 			}
@@ -197,12 +212,10 @@ func c07Profiles(tier Tier) []*explore.Profile {
 		Seeds: func(env *world.Env) []explore.SeedState {
 			var out []explore.SeedState
 			for _, n := range []string{"sft", "handover"} {
-				b := uni.NewBuilder(env)
-				w := uni.Seed(env, n)
-				b.W = w
+				b := uni.SeedBuilder(env, n)
 				// second collection R created by a0 (role only; its first NFT is issued inside the search)
 				b.Must(uni.SetRole(uni.A0, uni.R, uni.NFTRoles...))
-				out = append(out, explore.SeedState{Name: n + "+R", W: b.W})
+				out = append(out, explore.SeedState{Name: n + "+R", W: b.W, Legs: b.Legs, Failed: b.Failed})
 			}
 			return out
 		},
